@@ -1,12 +1,16 @@
-(* C14 - column renaming in AeRes.load_sources: the FULL statement
+(* C14 - column renaming in AeRes.load_sources, FROZEN REGRESSION RECORD of the pre-repair leaf.
+
+   Before the repair ("fix: load_sources takes the requested columns out before renaming") the
+   columns were renamed one by one with table.rename_column(old, new).  For that shape the statement
 
      for every table (unique column names) that has the six user-named columns, load_sources
      succeeds and the field of each parameter holds the user's column
 
-   is refuted for the sequential `table.rename_column(old, new)` of load_sources: when the table
-   also has a column with the canonical name (an Aegean catalogue has both peak_flux and int_flux;
-   AeRes --peakcol int_flux), astropy raises KeyError("Column peak_flux already exists").
-   Frozen copy of the model and of the rename pairing (this file does not refer to Gen/). *)
+   (now proved as C14_rename for the repaired shape) is refuted: when the table also has a column with
+   the catalogue name (an Aegean catalogue has both peak_flux and int_flux; AeRes --peakcol int_flux),
+   astropy raises KeyError("Column peak_flux already exists").  The same input is a file case of the
+   harness on every run.  This file carries its own copy of the old model and pairing (no reference
+   to Gen/ or Model/, which follow the tree). *)
 From Coq Require Import List String Bool.
 Import ListNotations.
 Open Scope string_scope.
